@@ -61,7 +61,7 @@ def sideeffects(req):
 
 def run_entry(module, args, cwd):
     env = dict(os.environ)
-    env["PYTHONPATH"] = "/repo"
+    env["PYTHONPATH"] = os.environ.get("VERIF_REPO", "/repo")
     env["MPLBACKEND"] = "Agg"
     p = subprocess.run([sys.executable, "-c", f"import sys; sys.argv = {['prog'] + args!r}; from hypnotoad.scripts import {module} as m; m.main()"],
                        cwd=cwd, env=env, stdout=subprocess.PIPE, stderr=subprocess.PIPE, text=True, timeout=1500)
